@@ -100,7 +100,13 @@ func (pc *ProtoCtx) EnsureMint() error {
 	if login == "" {
 		login = user
 	}
-	tok, _, at, err := i.MintAs(user, login, hostParam, s.Tun.MintIP, s.Tun.MintXFF)
+	var tok, at string
+	var err error
+	if s.Tun.LoginGroup != "" {
+		tok, _, at, err = i.MintInGroup(s.Tun.LoginGroup, user, login, hostParam, s.Tun.MintIP, s.Tun.MintXFF)
+	} else {
+		tok, _, at, err = i.MintAs(user, login, hostParam, s.Tun.MintIP, s.Tun.MintXFF)
+	}
 	if err != nil {
 		return fmt.Errorf("mint: %w", err)
 	}
@@ -231,6 +237,24 @@ func (pc *ProtoCtx) Build(st map[string]interface{}) ([]byte, M, error) {
 			pkt = tsgu.Packet(tsgu.PktChannelCreate, full[8:8+rng.Intn(8)])
 		case "long":
 			pkt = tsgu.ChannelCreateRaw(1, 0, uint16(cport), 3, uint16(len(nb)+2+2*rng.Intn(50)), nb)
+		case "alt":
+			// the requested name plus alternate resource names: only the requested one may be connected to
+			var alts []string
+			if v, ok := st["alts"].([]interface{}); ok {
+				for _, a := range v {
+					var sy []string
+					if l, ok := a.([]interface{}); ok {
+						for _, x := range l {
+							sy = append(sy, fmt.Sprint(x))
+						}
+					}
+					alts = append(alts, i.Conc(sy))
+				}
+			}
+			pkt = tsgu.ChannelCreateAlt(cname, alts, uint16(cport))
+			cls = "valid"
+			lp["cls"] = "valid"
+			lp["alts"] = len(alts)
 		case "odd":
 			pkt = tsgu.ChannelCreateRaw(1, 0, uint16(cport), 3, uint16(len(nb)+1), append(nb, 0x41))
 		}
